@@ -3336,7 +3336,11 @@ impl Zeroconf {
                 let service_opt = self
                     .my_services
                     .iter()
-                    .find(|(k, _v)| dns_registry.resolve_name(k.as_str()) == query_name)
+                    .find(|(k, _v)| {
+                        dns_registry
+                            .resolve_name(k.as_str())
+                            .eq_ignore_ascii_case(&query_name)
+                    })
                     .map(|(_, v)| v);
 
                 let Some(service) = service_opt else {
